@@ -10,7 +10,11 @@ for d in sorted(glob.glob(os.path.join(os.path.dirname(__file__), "..", "seeded"
     caught = ("`./check %s quick`: " % m.get("check_property", m["property"])) + m.get("how_caught", "")
     if not m.get("caught_by_quick", True):
         caught = "NOT caught by quick; " + m.get("how_caught", "")
-    rows.append("| %s | %s | %s | %s | %s |" % (m["id"], m["property"], cell(m.get("title", ""), 110), cell(m.get("needs_to_manifest", ""), 160), cell(caught, 260)))
+    if m.get("superseded_by"):
+        caught = "(when it was written: " + caught + ") NO LONGER APPLICABLE: " + m["superseded_by"]
+    elif m.get("rebased_onto"):
+        caught += " [carried over onto " + m["rebased_onto"] + " by a three-way merge]"
+    rows.append("| %s | %s | %s | %s | %s |" % (m["id"], m["property"], cell(m.get("title", ""), 110), cell(m.get("needs_to_manifest", ""), 160), cell(caught, 300)))
 table = "\n".join(rows)
 p = os.path.join(os.path.dirname(__file__), "..", "DESIGN.md")
 s = open(p).read()
